@@ -464,6 +464,7 @@ int main(int argc, char **argv)
 					}
 				});
 				std::atomic<int> go(0);
+				const bool pipe_mode(w.flags.count("pmodel") && w.flags["pmodel"] == "pipeline");
 				std::vector<std::thread> th;
 				for (unsigned ti(0); ti < nt; ++ti)
 					th.emplace_back([&, ti]() {
@@ -480,7 +481,13 @@ int main(int argc, char **argv)
 							}
 							else
 							{
-								w.ses->send(new_order("m" + std::to_string((ti + 1) * 1000 + k + 1)));
+								// the three ways an application can hand over one message: by pointer (session deletes it),
+								// by pointer keeping ownership, by reference (not permitted when pipelining)
+								Message *m(new_order("m" + std::to_string((ti + 1) * 1000 + k + 1)));
+								const unsigned how((ti + k) % 3);
+								if (how == 1 && !pipe_mode) { w.ses->send(*m); delete m; }
+								else if (how == 2) { w.ses->send(m, false); if (!pipe_mode) delete m; }
+								else w.ses->send(m);
 								++k;
 							}
 						}
@@ -562,6 +569,15 @@ int main(int argc, char **argv)
 			}
 			else if (c == "frames")   // what the reader thread delivered so far
 			{
+				// frames <want> <expect_stop>: first wait (max 3 s) until the reader has handed over <want> messages and,
+				// for a corrupt stream, has stopped; then until nothing more arrives for 8 ms
+				const size_t want(t.size() > 1 ? strtoul(t[1].c_str(), 0, 10) : 0);
+				const bool expstop(t.size() > 2 && t[2] == "1");
+				for (int spin(0); spin < 3000; ++spin)
+				{
+					if (w.ses->nframes() >= want && (!expstop || w.ses->st() == States::st_session_terminated)) break;
+					usleep(1000);
+				}
 				size_t last(w.ses->nframes());
 				for (int quiet(0), spin(0); quiet < 8 && spin < 1000; ++spin)   // stable for 8 ms
 				{
